@@ -26,6 +26,7 @@ var hostileDescs = []string{
 	"a", "é", `"`, `say "hi"`, `\`, `back\slash`, `"""`, `a """ b`, `\"""`, " lead", "trail ", "\n\nx\n\n", "  a\n    b\n  c", "line1\n line2", "tab\there",
 	"😀", " ", "   ", "ends with quote\"", `""`, `""""`, "#not comment", "\ttabfirst", "a\n\n\nb", "x\n  \ny", " \n ", "\nleading newline", "trailing newline\n",
 	"  indented first\nsecond", " nbsp", "​", "{}[]()$@!|&=:", "...", "\\u0041", "\\n", "a\\", "q\"\"", "multi\n\"\"\"\nline",
+	"  first\n\n  second", "\tone\n\n\ttwo", "  a\n\n\n  b\n   c", "\U000F0000 private use", "tag \U000E0001 char", "\u00ad soft hyphen", "\u200b\u001f\u000b",
 }
 var plainDescs = []string{"a description", "x", "multi\nline", "Ends.", "The thing"}
 
